@@ -24,7 +24,9 @@ def c03(tier, seed):
     obs += units_verus.select(lo, r"::(pad_to_bitfield_unit|saw_bitfield_unit|padding_field|bitfield_unit)::", None, keep_meta=False)
     po, pcmd, plog, _ = units_verus.run_unit("packed")
     obs += units_verus.select(po, r"::CompInfo::is_packed::", None, keep_meta=False)
-    cmd = cmd + " ; " + vcmd + " ; " + lcmd + " ; " + pcmd
+    so, scmd, slog, _ = units_verus.run_unit("bf_unit_start")
+    obs += so
+    cmd = cmd + " ; " + vcmd + " ; " + lcmd + " ; " + pcmd + " ; " + scmd
     prep = dict(prep, bf_alloc_unit=[dict(l, unit="bf_alloc") for l in vlog])
     meta = {
         "checker_cmd": cmd,
@@ -40,6 +42,7 @@ def c03(tier, seed):
             "bindgen/ir/comp.rs: bitfields_to_allocation_units (+ nested flush_allocation_unit), three contracts: (1) no clang offsets (class templates): every emitted bit-field satisfies the ABI placement rule, fields keep their order without overlap, offset_into_unit + width <= 8 * unit size; (2) clang offsets, every field ends at or after the earlier ones (structs): offset_into_unit + width <= 8 * unit size; (3) clang offsets otherwise (unions): witness of known finding F7",
             "bindgen/ir/comp.rs: CompInfo::is_packed (whether bit-fields are allocated with packed rules; callback iteration desugared by rule R16)",
             "bindgen/codegen/struct_layout.rs: StructLayoutTracker::pad_to_bitfield_unit, saw_bitfield_unit (unit layout; the unit lands at the clang offset of its first bit-field)",
+            "bindgen/codegen/mod.rs: the unit-start closure of <BitfieldUnit as FieldCodegen>::codegen (unit bf_unit_start, rule R18 brace-less closure: unit start = clang offset of the field - its offset into the unit)",
         ],
         "extraction": [prep],
         "assumptions": [
@@ -50,7 +53,7 @@ def c03(tier, seed):
         ],
         "unverified": [
             "ir/comp.rs bitfields_to_allocation_units in the clang-offset mode; raw_fields_to_fields_and_bitfield_units (grouping of consecutive bit-fields)",
-            "codegen/mod.rs accessor emission: cast chain, transmute, sign extension of signed bit-fields",
+            "codegen/mod.rs accessor emission: cast chain, transmute, sign extension of signed bit-fields; that the unit-start closure is applied to the unit's FIRST bit-field (`bfields.first()`, slice API outside the extracted closure)",
             "big-endian branches; 32-bit usize fast path",
         ],
     }
@@ -228,25 +231,29 @@ INCRATE_TRUST = ["in-crate harness modules pulled in by cfg(kani) hook lines; Ty
 def c04(tier, seed):
     def extra():
         return units_incrate.run_spec(units_incrate.abi_spec())
-    return _verus_prop("C04", tier, seed, [("fnsig", None, None), ("ptr_lowering", None, None), ("fn_abi", r"::FunctionSig::(abi|is_variadic)::", None)], {
+    return _verus_prop("C04", tier, seed, [("fnsig", None, None), ("ptr_lowering", None, None), ("fn_abi", r"::FunctionSig::(abi|is_variadic)::", None), ("link_name", None, None)], {
         "trusted_base": INCRATE_TRUST + ["calling-convention oracle: clang-c/Index.h CXCallingConv values x Rust reference ABI strings (kani_incrate/function_abi.rs)"],
         "functions_under_contract": ["bindgen/ir/function.rs: get_abi (Kani in-crate), FunctionSig::abi, FunctionSig::is_variadic (Verus unit fn_abi)",
-                                     "bindgen/codegen/mod.rs: utils::fnsig_argument_type, utils::fnsig_return_ty_internal (Verus unit fnsig); the Pointer/Reference arm of <Type as TryToRustTy>::try_to_rust_ty (Verus unit ptr_lowering, block extracted by rule R18)"],
+                                     "bindgen/codegen/mod.rs: utils::fnsig_argument_type, utils::fnsig_return_ty_internal (Verus unit fnsig); the Pointer/Reference arm of <Type as TryToRustTy>::try_to_rust_ty (Verus unit ptr_lowering, block extracted by rule R18)",
+                                     "bindgen/codegen/mod.rs: utils::names_will_be_identical_after_mangling (Verus unit link_name, all name lengths; std str/slice operations replaced by Seq-specified env functions, rule R21)"],
         "assumptions": ["get_abi: every u32 CXCallingConv value (loop-free, full domain)",
                         "FunctionSig::abi: the ABI emitted is the --override-abi match if any, else what clang reported, or an error; never something else",
                         "pointer lowering: wrong-sized pointer types are an error; a pointer to (a typedef of) a function type or to an ObjC interface adds no pointer level; C++ references become NonNull when asked; every other pointee gets *const/*mut by the pointee's constness",
+                        "link_name omission: #[link_name] is omitted exactly when the compiler's symbol is the Rust name itself or its platform decoration for the calling convention (`_name`; `_name@N` stdcall; `@name@N` fastcall), the decoration table transcribed from the Microsoft decorated-names / Mach-O conventions; slice indexing in the function never goes out of bounds",
                         "argument lowering: array parameters decay to a pointer to the element (const iff element or array is const), ObjC interface pointers are named, everything else keeps its type; return lowering: noreturn -> !, void (through typedefs) -> (), else the type. The type tokens themselves (to_rust_ty_or_opaque) are uninterpreted",],
-        "unverified": ["cursor_mangling / mangled names from libclang; link_name omission (utils::names_will_be_identical_after_mangling: byte-string code); the other arms of try_to_rust_ty; fnsig_arguments_iter naming; Method::codegen_method; merge_extern_blocks (seed S06 missed); ABI classification by rustc/LLVM vs clang"],
+        "unverified": ["cursor_mangling / mangled names from libclang; the call sites of names_will_be_identical_after_mangling (Function::codegen, Var::codegen) and whether rustc decorates as the table says; the other arms of try_to_rust_ty; fnsig_arguments_iter naming; Method::codegen_method; merge_extern_blocks (seed S06 missed); ABI classification by rustc/LLVM vs clang"],
     }, extra_obs=extra)
 
 
 def c05(tier, seed):
-    return _verus_prop("C05", tier, seed, [("macro_type", None, None)], {
+    return _verus_prop("C05", tier, seed, [("macro_type", None, None), ("eval_int", None, None)], {
         "trusted_base": ["extraction rules R1-R11; env/macro_type_env.rs: uninterpreted option reads; assume_specification for i64::from(u8|u16|u32) (lossless widening)",
-                         "C-model table kind_bits/kind_signed written from the kinds' names (contracts/macro_type.py)"],
-        "functions_under_contract": ["bindgen/ir/var.rs: default_macro_constant_type", "bindgen/ir/int.rs: IntKind::is_signed, IntKind::known_size"],
+                         "C-model table kind_bits/kind_signed written from the kinds' names (contracts/macro_type.py)",
+                         "env/eval_int_env.rs: each libclang evaluator entry point is a distinct uninterpreted function of the result handle (rule R20: `unsafe { f(x) }` -> `{ f(x) }`, FFI functions are safe stubs); an out-of-range `u64 as i64` cast is the same (unspecified but fixed) function on both sides of the contract"],
+        "functions_under_contract": ["bindgen/ir/var.rs: default_macro_constant_type", "bindgen/ir/int.rs: IntKind::is_signed, IntKind::known_size",
+                                     "bindgen/clang.rs: EvalResult::kind, EvalResult::as_int (which libclang getter supplies the value of a const initialiser / fallback macro)"],
         "assumptions": ["all i64 macro values, both option reads uninterpreted: the chosen kind holds the value, has the sign the property demands, is the narrowest such kind under fit-macro-constant-types and 32/64 bit otherwise"],
-        "unverified": ["cexpr macro evaluation, libclang EvalResult, clang-macro-fallback; signed/unsigned literal branch in Var::codegen; Enum::codegen repr translation and EnumBuilder; proc_macro2::Literal printing"],
+        "unverified": ["cexpr macro evaluation, libclang's evaluator itself, EvalResult::new, the clang-macro-fallback plumbing; signed/unsigned literal branch in Var::codegen; Enum::codegen repr translation and EnumBuilder; proc_macro2::Literal printing"],
     })
 
 
@@ -269,7 +276,7 @@ def c07(tier, seed):
         o1, c1 = units_incrate.run_spec(units_incrate.lattice_spec() + units_incrate.subscriptions_spec())
         return o1, c1
     return _verus_prop("C07", tier, seed, [("edges", r"consider_edge", None), ("has_float", None, None), ("has_tp_array", None, None),
-                                           ("has_destructor", None, None), ("lattice_insert", None, None)], {
+                                           ("has_destructor", None, None), ("lattice_insert", None, None), ("analyze", None, None)], {
         "trusted_base": INCRATE_TRUST + ["read-sets of each analysis' constrain (contracts/edges.py, hand-derived from the constrain bodies and the Trace impls)",
                                         "declared lattice orders taken from the enums' doc comments"],
         "functions_under_contract": ["bindgen/ir/derive.rs: CanDerive::join, BitOr, BitOrAssign", "bindgen/ir/analysis/has_vtable.rs: HasVtableResult::join(+ops), HasVtableAnalysis::consider_edge",
@@ -277,10 +284,12 @@ def c07(tier, seed):
                                      "bindgen/ir/analysis/{has_destructor,has_float,has_type_param_in_array}.rs: consider_edge",
                                      "bindgen/ir/analysis/derive.rs: consider_edge_default, DeriveTrait::consider_edge_comp/_typeref/_tmpl_inst",
                                      "bindgen/ir/analysis/{has_float,has_type_param_in_array,has_destructor}.rs: insert and MonotoneFramework::constrain (units has_float, has_tp_array, has_destructor: inflationary, Changed <=> the fact set changed, fix-point equation of the rule; 'any base/field/argument has the fact' iterator chains = uninterpreted functions of the fact set)",
+                                     "bindgen/ir/analysis/mod.rs: analyze::<A> -- the generic worklist driver, for EVERY analysis A satisfying the MonotoneFramework obligations (unit analyze: at return every node of the initial worklist is stable, i.e. re-applying its rule changes nothing; `while let` desugared by its definition (R19), the each_depending_on callback = append of the dependents (R16); termination not proved)",
                                      "bindgen/ir/analysis/{has_vtable,sizedness,derive}.rs: insert (+forward) of the lattice-valued analyses (unit lattice_insert: the key moves only up, to the join; Changed <=> it moved; Entry API desugared by rule R17)"],
         "assumptions": ["necessary conditions of the least-fixed-point property: (i) joins are least upper bounds of the declared orders, (ii) every edge kind a rule reads along is in the analysis' subscription predicate, (iii) every table update is inflationary and reports Changed exactly when the table changed, (iv) the three set-valued rules compute the fact of a node from the current facts of its neighbours (fix-point equation)",
-                        "the worklist driver analysis::analyze, the constrain bodies of HasVtableAnalysis, SizednessAnalysis, CannotDerive::constrain (outer) and UsedTemplateParameters are NOT under contract"],
-        "unverified": ["constrain of has_vtable / sizedness / template_params; analysis::analyze; generate_dependencies; Trace impls; completeness of the read-sets; termination; the declaration-order corollary"],
+                        "(v) the driver: assuming of an analysis that constrain(n) leaves n stable, that Same changes nothing and that Changed can de-stabilise only nodes each_depending_on(n) reports (env/analyze_env.rs), analyze returns a state in which every node of the initial worklist is stable",
+                        "the constrain bodies of HasVtableAnalysis, SizednessAnalysis, CannotDerive::constrain (outer) and UsedTemplateParameters are NOT under contract; CannotDerive does not satisfy the driver's assumption for NON-allowlisted sub-items (it has no dependency edges for them and relies on the seed order of its initial_worklist instead: seed S24 missed)"],
+        "unverified": ["constrain of has_vtable / sizedness / template_params; the initial_worklist functions (iterator chains); generate_dependencies; Trace impls; completeness of the read-sets; termination; the declaration-order corollary"],
     }, extra_obs=extra)
 
 
